@@ -4,6 +4,8 @@ import DatamonVerif.Drv.Cafs
 import DatamonVerif.Drv.C04
 import DatamonVerif.Drv.C17
 import DatamonVerif.Drv.C19
+import DatamonVerif.Drv.C20
+import DatamonVerif.Drv.C16
 open DV
 
 def main (args : List String) : IO UInt32 := do
@@ -18,4 +20,6 @@ def main (args : List String) : IO UInt32 := do
   | ["model", "C22"] => loop C22.handler inp out C22.handler.init; return 0
   | ["model", "C17"] => loop C17.handler inp out C17.handler.init; return 0
   | ["model", "C19"] => loop C19.handler inp out C19.handler.init; return 0
+  | ["model", "C20"] => loop C20.handler inp out C20.handler.init; return 0
+  | ["model", "C16"] => loop C16.handler inp out C16.handler.init; return 0
   | _ => IO.eprintln "usage: dvdriver model <Cxx>"; return 2
